@@ -18,7 +18,8 @@ def run(ck, ctx):
         "bracket handling are reset before every statement on every route to the parser.")
     S.t_reset_lexer(ck, ctx, only={"lt_open", "check", "lp_open", "columns_def", "after_columns", "last_token", "last_par", "is_table"})
     ck.floor("T-RESET.lexer", 6)
-    S.t_dom(ck, ctx, "process_line", S.is_self_call("set_default_flags_in_lexer"), S.is_self_call("process_statement"),
+    from ..specs.lines import check_reset_before_parse
+    check_reset_before_parse(ck, ctx,
             "Parser.process_line: flag reset dominates process_statement()",
             "the bracket counter and the CHECK flag must not survive into the next statement")
     ex = run_fragment(ck, ctx, "types", tier=ck.tier)
